@@ -23,7 +23,10 @@ pub fn run_wait_ops(nthreads: usize, ops: &[WOp]) -> Result<(), String> {
         match *op {
             WOp::Enqueue(t, obj, cond) => {
                 if queued[t] { continue; } // a thread waits on one object at a time (it is parked while queued)
-                let r = wl.conditionally_enqueue(ptr_of(t), Address::from(obj), || cond);
+                // the condition must be evaluated WHILE the wait-table lock is held (otherwise an unlock between the check and the enqueue is lost)
+                let mut under_lock = false;
+                let r = wl.conditionally_enqueue(ptr_of(t), Address::from(obj), || { under_lock = wl.data.try_lock().is_none(); cond });
+                if !under_lock { return Err(format!("op #{} conditionally_enqueue evaluated its condition without holding the wait-table lock (a wake-up between check and enqueue would be lost)", i)); }
                 if r != cond { return Err(format!("op #{} conditionally_enqueue returned {} for condition {}", i, r, cond)); }
                 if cond { model.entry(obj).or_default().push_back(t); queued[t] = true; used = true; }
             }
